@@ -229,6 +229,7 @@ func ruleC04(c *Check) {
 	for _, s := range ss {
 		c.slashInternals(s, gBinding)
 	}
+	c.slashEffective("C04.6", ss)
 	c.depositPairing("C04.4", ss...)
 	c.availabilityPairs("C04.5")
 }
@@ -407,4 +408,154 @@ func (c *Check) expiryScanGuard(rule string) {
 				"scan is restricted to (context id "+shortTerm(id)+", the context's BatchCounter "+shortTerm(cnt)+")")
 		}
 	}
+}
+
+// slashEffective (C04.6): a slash that is called must burn. Every committed path of the slash function burns, or
+// — for a path that returns success without burning — the guard it took is refuted at every call site by what the
+// caller has established since the last change of the records that guard reads (a guard such as "the request is
+// still pending" is void once the caller has removed the pending marker before slashing), or the guard says that
+// the amount to burn is zero.
+func (c *Check) slashEffective(rule string, ss []*Func) {
+	isBurn := func(e *Eff) bool { return e.Kind == "bank" && e.Op == "BurnCoins" }
+	zeroOps := map[string]bool{"sdk.Coins.IsZero": true, "sdk.Coins.Empty": true, "sdk.Int.IsZero": true, "sdk.Dec.IsZero": true}
+	for _, s := range ss {
+		var skips []*Path
+		nBurn := 0
+		for _, pa := range c.P.PathsOf(s) {
+			if !pa.OK() {
+				continue
+			}
+			if _, ok := c.pathHasEffect(s, pa, isBurn); ok {
+				nBurn++
+				continue
+			}
+			zero := false
+			for _, f := range pa.AllFacts() {
+				if !f.Neg && zeroOps[f.T.Op] {
+					zero = true
+				}
+			}
+			if !zero {
+				skips = append(skips, pa)
+			}
+		}
+		if !c.req(nBurn > 0, rule, unitConstruct(s, "burning-paths"), s.Body.Pos(), fmt.Sprintf("%d committed paths of the slash function burn", nBurn)) {
+			continue
+		}
+		if len(skips) == 0 {
+			c.ok(rule, unitConstruct(s, "always-burns"), s.Body.Pos(), "every committed path of the slash function burns (or its guard says the amount is zero)")
+			continue
+		}
+		// the guard of each skipping path, seen from every call site
+		for _, f := range c.handFuncs("keeper", "service") {
+			bad := ""
+			n := 0
+			for _, pa := range c.P.PathsOf(f) {
+				if !pa.OK() {
+					continue
+				}
+				for idx, ev := range pa.Events {
+					if ev.Kind != EvCall || ev.CI.fn != s {
+						continue
+					}
+					n++
+					m := map[string]*Term{}
+					for i, a := range ev.CI.args {
+						m[fmt.Sprintf("P%d", i)] = a
+					}
+					if ev.CI.recv != nil {
+						m["Precv"] = ev.CI.recv
+					}
+					for _, sp := range skips {
+						refuted := false
+						for _, g := range sp.AllFacts() {
+							gi := g.Subst(m)
+							fams := c.factFamilies(gi)
+							// facts established after the last change of what the guard reads
+							from := 0
+							for j := 0; j < idx; j++ {
+								if pa.Events[j].Kind != EvCall {
+									continue
+								}
+								for _, e := range c.P.effectsOfEvent(f, pa.Events[j]) {
+									if e.Kind == "store" && e.Mutates() && fams[e.Family] {
+										from = j + 1
+									}
+								}
+							}
+							fs := FactSet{}
+							for _, x := range pa.Events[from:idx] {
+								if x.Kind == EvFact {
+									fs.Add(x.Fact)
+								}
+							}
+							if from == 0 {
+								fs = pa.FactsBefore(idx)
+							}
+							if fs.Holds(gi.T, gi.Neg) {
+								refuted = true
+							}
+							// "the record under the scan is missing" is void while the scanned family is unchanged
+							if !refuted && gi.Neg && from == 0 && c.existsUnderScan(f, gi.T, fams) {
+								refuted = true
+							}
+						}
+						if !refuted {
+							bad = fmt.Sprintf("the slash called at %s can take the non-burning path ending at %s", c.pos(ev.Pos), c.pos(sp.RetPos))
+						}
+					}
+				}
+			}
+			if n > 0 {
+				c.req(bad == "", rule, unitConstruct(f, "slash-burns"), f.Body.Pos(), "every non-burning path of the slash function is excluded by what this caller has established at the call"+condStr(bad != "", ": "+bad))
+			}
+		}
+	}
+}
+
+// factFamilies: the store families read by the module functions a fact mentions.
+func (c *Check) factFamilies(f Fact) map[string]bool {
+	out := map[string]bool{}
+	f.T.Walk(func(t *Term) bool {
+		g := c.P.FuncNamed(t.Op)
+		if g != nil && g.isHandWritten() && g.Body != nil && !c.P.pathsBusy[g] {
+			for _, e := range c.P.SummaryOf(g).Effs {
+				if e.Kind == "store" {
+					out[e.Family] = true
+				}
+			}
+		}
+		return true
+	})
+	return out
+}
+
+// existsUnderScan: t is a lookup (Has/Get only) in one key family by the identifier that the unit f receives
+// from a scan of that same family.
+func (c *Check) existsUnderScan(f *Func, t *Term, fams map[string]bool) bool {
+	if len(fams) != 1 {
+		return false
+	}
+	g := c.P.FuncNamed(t.Op)
+	if g == nil {
+		return false
+	}
+	for _, e := range c.P.SummaryOf(g).Effs {
+		if e.Kind == "store" && e.Op != "Has" && e.Op != "Get" {
+			return false
+		}
+	}
+	for fam := range fams {
+		for _, b := range c.closuresBoundToScan(fam) {
+			if b.Closure != f {
+				continue
+			}
+			for _, a := range t.A {
+				if a.IsAt(b.IdP) {
+					return true
+				}
+			}
+		}
+	}
+	return false
 }
